@@ -802,7 +802,23 @@ pub fn validate_abnf(abnf: &str, target: &str) -> Result<(), String> {
     let pairs = pest_meta::parser::parse(pest_meta::parser::Rule::grammar_rules, &pest)
       .map_err(|e| e.to_string())?;
 
-    let ast = pest_meta::parser::consume_rules(pairs).unwrap();
+    // pest_vm panics on undefined rules and overflows the stack on left
+    // recursion; reject such grammars up front as pest's own pipeline does
+    pest_meta::validator::validate_pairs(pairs.clone()).map_err(|errs| {
+      errs
+        .iter()
+        .map(|e| e.to_string())
+        .collect::<Vec<_>>()
+        .join("; ")
+    })?;
+
+    let ast = pest_meta::parser::consume_rules(pairs).map_err(|errs| {
+      errs
+        .iter()
+        .map(|e| e.to_string())
+        .collect::<Vec<_>>()
+        .join("; ")
+    })?;
 
     let vm = pest_vm::Vm::new(pest_meta::optimizer::optimize(ast));
 
